@@ -65,6 +65,22 @@ template <class T, class M> struct VecOps {
     return o[lane];
   }
 #endif
+  // the vector butterfly ntt_loop_body<M, poly, T> on arbitrary lane contents (case in a rotating lane)
+  static std::string bfly(ull wt, ull a, ull b, size_t cm, size_t idx) {
+    typedef poly<T, 16, 1> P;
+    T p = params<T>::P[cm]; size_t lane = idx % L;
+    alignas(32) T x0[L], x1[L], w[L], wi[L], s0[L], s1[L];
+    for (size_t j = 0; j < L; j++) {
+      ull k = (j + 1) * 104729ULL + idx * 131ULL;
+      x0[j] = (j == lane) ? (T)a : (T)(a + k); x1[j] = (j == lane) ? (T)b : (T)(b * 3 + k);
+      w[j] = (j == lane) ? (T)wt : (T)((wt + k) % p); wi[j] = ops::compute_shoup<T, simd::serial>{}(w[j], cm);
+      s0[j] = x0[j]; s1[j] = x1[j];
+    }
+    ops::ntt_loop_body<M, P, T> body(p); body(x0, x1, wi, w);
+    ops::ntt_loop_body<simd::serial, P, T> sbody(p);
+    for (size_t j = 0; j < L; j++) { sbody(&s0[j], &s1[j], &wi[j], &w[j]); if (s0[j] != x0[j] || s1[j] != x1[j]) lane_bad = true; }
+    return std::to_string((ull)x0[lane]) + ":" + std::to_string((ull)x1[lane]);
+  }
 };
 
 // which vector specialisations exist (the others inherit the scalar functor and take scalars)
@@ -96,6 +112,17 @@ template <class T> static void run_case(const std::vector<std::string>& t, size_
 #endif
 #ifdef HAVE_AVX2
     if (HasVec<T>::addsub) os << " " << VecOps<typename std::conditional<HasVec<T>::addsub, T, uint32_t>::type, simd::avx2>::add(x, y, cm, idx, sub);
+#endif
+  } else if (op == "bfly") {
+    ull wt = A(3), a = A(4), b = A(5);
+    T x0 = (T)a, x1 = (T)b, w = (T)wt, wi = ops::compute_shoup<T, simd::serial>{}(w, cm);
+    ops::ntt_loop_body<simd::serial, poly<T, 16, 1>, T> body((T)p); body(&x0, &x1, &wi, &w);
+    os << (ull)x0 << ":" << (ull)x1;
+#ifdef HAVE_SSE
+    if (HasVec<T>::addsub) os << " " << VecOps<typename std::conditional<HasVec<T>::addsub, T, uint32_t>::type, simd::sse>::bfly(wt, a, b, cm, idx);
+#endif
+#ifdef HAVE_AVX2
+    if (HasVec<T>::addsub) os << " " << VecOps<typename std::conditional<HasVec<T>::addsub, T, uint32_t>::type, simd::avx2>::bfly(wt, a, b, cm, idx);
 #endif
   } else if (op == "mulmod") {
     os << (ull)ops::mulmod<T, simd::serial>{}((T)A(4), (T)A(5), cm);
